@@ -356,7 +356,7 @@ def run_c12(run):
     run.cov["tables"] = {"strings": tables[0][1], "transfers": tables[1][1], "builders": tables[2][1]}
     # (V)
     need = dict(str=nstr, xfer=tables[1][1], xfer_value=1000, xfer_error=1000, unspec=20, inverse=1000, msg=20 if quick else 500, deploy=900, su=800,
-                random=nrand, value=10000, error=10000, bhist=200 if quick else 10000, bhist_reuse=100 if quick else 5000)
+                random=nrand, value=10000, error=10000, bhist=200 if quick else 10000, bhist_reuse=100 if quick else 5000, omsg=60 if quick else 4000)
     for k, n in need.items():
         run.require(c.get(k, 0) >= n, "%s=%d < %d" % (k, c.get(k, 0), n))
     run.require(c.get("evaluated", 0) >= lines - 10, "evaluated=%d of %d rows" % (c.get("evaluated", 0), lines))
